@@ -20,6 +20,8 @@ pub fn spec_for(prop: &str) -> Option<Spec> {
         "C09" => Spec { gen: crate::dev_gen::generate, quick_runs: 20_000, thorough_runs: 1_000_000 },
         "C13" => Spec { gen: crate::dev_gen::generate, quick_runs: 20_000, thorough_runs: 1_000_000 },
         "C20" => Spec { gen: crate::dev_gen::generate, quick_runs: 20_000, thorough_runs: 1_000_000 },
+        "C02" => Spec { gen: crate::comb::generate, quick_runs: 40_000, thorough_runs: 2_000_000 },
+        "C03" => Spec { gen: gen_c03, quick_runs: 40_000, thorough_runs: 2_000_000 },
         _ => return None,
     })
 }
@@ -28,6 +30,8 @@ pub fn execute(plan: &Plan, ctx: &mut Ctx) {
     match plan.world.as_str() {
         "node" => crate::node_oracles::execute(plan, ctx),
         "device" => crate::dev_oracles::execute(plan, ctx),
+        "comb" => crate::comb::execute(plan, ctx),
+        "datum" => crate::datumop::execute(plan, ctx),
         other => ctx.violate("HARNESS", "unknown_world", other, format!("unknown world {:?}", other)),
     }
 }
@@ -36,6 +40,16 @@ pub fn simplify(plan: &Plan) -> Vec<Plan> {
     match plan.world.as_str() {
         "node" => crate::node_gen::simplify(plan),
         "device" => crate::dev_gen::simplify(plan),
+        "comb" => crate::comb::simplify(plan),
         _ => Vec::new(),
+    }
+}
+
+/// C03 rides on three worlds: combinator DAGs, device graphs and the operator layer.
+fn gen_c03(prop: &str, tier: crate::core::Tier, rng: &mut crate::rng::Rng, seed: u64, run: u64) -> Plan {
+    match run % 4 {
+        0 | 1 => crate::comb::generate(prop, tier, rng, seed, run),
+        2 => crate::dev_gen::generate(prop, tier, rng, seed, run / 4),
+        _ => crate::datumop::generate(prop, tier, rng, seed, run / 4),
     }
 }
